@@ -18,8 +18,10 @@ import cm_linear as L
 HERE = os.path.dirname(os.path.abspath(__file__))
 INVS = ["Lower", "UpperSparse", "UpperCellSparse", "Exact", "NAdded", "CellsBelowCap"]     # C01 on every recorded step
 CHEAP = ["Lower", "NAdded", "CellsBelowCap"]
+SPARSE = ["LowerSparse", "UpperSparse", "UpperCellSparse", "ExactSparse", "NAddedSparse", "CellsBelowCapSparse"]
 QUICK_K = "empty_linear or update_linear_dict or update_ngram_linear"
-FULL_K = "linear"
+# (test_merge_linear: 100 000 calls on a 200x8 table, about 25 minutes of one TLC worker -- left out)
+FULL_K = "linear and not merge_linear"
 
 
 def record(kexpr):
@@ -57,8 +59,14 @@ def validate(report, quick, tag="suite"):
     small = [t for t in used if t["NS"] * t["W"] * t["D"] * len(t["keys"]) <= 60000]
     large = [t for t in used if t["NS"] * t["W"] * t["D"] * len(t["keys"]) > 60000]
     ok = True
+    # traces of tens of thousands of calls: every invariant at every 64th step and at the end
+    # (the recorded state of every call is still compared)
+    long_ = [t for t in small if len(t["events"]) > 3000]
+    small = [t for t in small if len(t["events"]) <= 3000]
     if small:
         ok = L.validate(report, small, INVS, [], tag=tag) and ok
+    if long_ and ok:
+        ok = L.validate(report, long_, SPARSE, [], tag=tag + "S", timeout=4000) and ok      # 100 000 calls on a 200x8 table: one TLC worker, about 25 min
     if large and ok:
         ok = L.validate(report, large, CHEAP, [], tag=tag + "L") and ok
     return ok
